@@ -4,5 +4,5 @@ d=$1; shift
 S=/tmp/seedrepo-$$
 rm -rf $S && mkdir -p $S && rsync -a --exclude .git --exclude "*.so" --exclude "*.cpp" --exclude examples --exclude "inference examples" --exclude "lineage examples" --exclude build /repo/ $S/
 (cd $S && patch -p1 -s < $d/patch.diff) || { echo "patch failed"; exit 9; }
-for p in "$@"; do (cd /verif && BSVC_REPO=$S ./check $p > /tmp/seedout.$$ 2>&1; rc=$?; cut -c1-260 /tmp/seedout.$$ | head -6; echo "exit=$rc"); done
+for p in "$@"; do (cd /verif && BSVC_REPO=$S ./check $p > /tmp/seedout.$$ 2>&1; rc=$?; cut -c1-260 /tmp/seedout.$$ | grep -v "^KNOWN-FINDING" | head -6; echo "exit=$rc"); done
 rm -rf $S
